@@ -575,19 +575,19 @@ def check(run):
     m6k = [MS.norm_model(l) for l in m6k]
     j6 = []
     for k, c in enumerate(sess6):
-        sc = MS.scenario(c)
+        sc = MS.scenario(c, via_file=(k % 3 == 1))
         j6.append(((k, "s"), plain, sc, os.path.join(W, "m6s", str(k)), "plain", 30))
         if asan and (not quick or k % 4 == run.seed % 4):
             j6.append(((k, "a"), asan, sc, os.path.join(W, "m6a", str(k)), "asan", 60))
         same_model = kept6[k] is not None and k < len(m6) and k < len(m6k) and m6[k] and m6k[k] and \
             m6[k][-1].split(" ", 1)[1] == m6k[k][-1].split(" ", 1)[1]
         if same_model:
-            j6.append(((k, "f"), plain, MS.scenario(kept6[k]), os.path.join(W, "m6f", str(k)), "plain", 30))
+            j6.append(((k, "f"), plain, MS.scenario(kept6[k], via_file=(k % 3 == 1)), os.path.join(W, "m6f", str(k)), "plain", 30))
     r6 = L.run_many(j6)
     for k, c in enumerate(sess6):
         notes = [x if x == "RESET" else x.note.strip().replace(" ", "+") for x in c]
         shape = ">".join(n for n in notes if n)
-        sc = MS.scenario(c)
+        sc = MS.scenario(c, via_file=(k % 3 == 1))
         for tag in ("s", "a"):
             r2 = r6.get((k, tag))
             if r2 is not None and r2["cls"] != "ok" and not r2.get("skipped"):
@@ -687,13 +687,14 @@ def check(run):
 
     # ------------------------------------------------------------------ 3c'. vector-valued keywords (tie of vector_keyword)
     vjobs, vlines, vcases = [], [], []
-    for label, tmpl, presized, elem in T.VECTORS:
-        for v in T.VECTOR_VALUES + (["-1 1", "1 -1"] if elem == "nonneg" or label.startswith("harmonic") else []):
+    for label, tmpl, presized, elem in T.VECTORS + T.VECTORS3:
+        nvar = 3 if label.endswith("/3") else 2
+        for v in (T.VECTOR3_VALUES if nvar == 3 else T.VECTOR_VALUES + (["-1 1", "1 -1"] if elem in ("nonneg", "pos") or label.startswith("harmonic") else [])):
             if label.startswith("histgrid") and ("1e300" in v or "1e-300" in v):
                 continue          # extreme widths change the SIZE of the grid (grid_init covers that), not the list check
             k = len(vcases)
             vcases.append((label, v))
-            vlines.append("vector n=2 presized=%s elem=%s toks=%s" % ("on" if presized else "off", elem, ",".join(v.split())))
+            vlines.append("vector n=%d presized=%s elem=%s toks=%s" % (nvar, "on" if presized else "off", elem, ",".join(v.split())))
             sc = T.scenario(tmpl.replace("{V}", v), 3, nsteps=4)
             for var in variants:
                 if var == "asan" and quick and k % 4 != run.seed % 4:
